@@ -28,7 +28,13 @@ Definition m08_step (w : world) (acc : list (nat * (nat * nat)) * list Z) (x : o
          lookup could find lies in a quarantined block.  A reader obtained BEFORE the
          detection may still complete: its bytes were validated. *)
       let v1 := if Z.eqb (ob_kind o) 1 && only_in_quarantine w s0 ob i then [1] else [] in
-      if Z.eqb (ob_kind o) 1 then ((tid, (ob, i)) :: gets, viol ++ v1 ++ v2) else (gets, viol ++ v2)
+      (* 4: "objects in newer blocks are unaffected": after a detection, NOT_FOUND is
+         answered for an object that (by the model's bookkeeping) still has a location
+         in a listed block at or above the quarantine boundary *)
+      let v4 := if Z.eqb (ob_kind o) 0 && Z.eqb (ob_code o) cNotFound && Nat.ltb 0 (s_negs s0)
+                   && match least_specific s0 (lookup_keys w ob i) with Some _ => true | None => false end
+                then [4] else [] in
+      if Z.eqb (ob_kind o) 1 then ((tid, (ob, i)) :: gets, viol ++ v1 ++ v2) else (gets, viol ++ v4 ++ v2)
   | OGetConsume tid => (unassoc gets tid, viol ++ v2)
   | OFindMissing ds =>
       if Z.eqb (ob_kind o) 2 && Z.eqb (ob_code o) 0 then
